@@ -28,6 +28,7 @@ type BlockStep struct {
 	Back int    `json:"back,omitempty"`
 	Skip int    `json:"skip,omitempty"` // empty slots before this block
 	Jit  int    `json:"jit,omitempty"`  // milliseconds past the slot start (0 = on the slot grid)
+	Reg  int    `json:"reg,omitempty"`  // k>0: the proposer adds a contract registration (code variant k) by hand
 	Txs  []TxOp `json:"txs,omitempty"`
 }
 
@@ -87,7 +88,11 @@ func GenSteps(rt *rapid.T, minN, maxN, maxBack, maxTx int) []BlockStep {
 		if rapid.IntRange(0, 4).Draw(rt, "jitq") == 4 {
 			jit = rapid.SampledFrom([]int{1, 2999, 3000, 5999}).Draw(rt, "jit")
 		}
-		steps[i] = BlockStep{Back: back, Skip: skip, Jit: jit, Txs: GenTxOps(rt, maxTx)}
+		reg := 0
+		if maxTx > 0 && rapid.IntRange(0, 5).Draw(rt, "regq") == 5 {
+			reg = rapid.IntRange(1, 3).Draw(rt, "reg")
+		}
+		steps[i] = BlockStep{Back: back, Skip: skip, Jit: jit, Reg: reg, Txs: GenTxOps(rt, maxTx)}
 	}
 	return steps
 }
